@@ -550,7 +550,7 @@ fn main() {
     };
     let mut args = args;
     if args.replay.is_some() {
-        args.out = std::env::temp_dir().join("c05-replay");
+        args.out = std::path::Path::new(env!("CARGO_MANIFEST_DIR")).join("../.cache/replay-c05");
         std::fs::create_dir_all(&args.out).ok();
     }
     for e in std::fs::read_dir(&args.out).unwrap().flatten() {
